@@ -18,6 +18,7 @@ import (
 
 type SolverStats struct {
 	Queries   int64
+	ModelHits int64
 	Sat       int64
 	Unsat     int64
 	Unknown   int64
@@ -25,6 +26,8 @@ type SolverStats struct {
 }
 
 var GStats SolverStats
+
+var oneShotMode = os.Getenv("VS_ONESHOT") != ""
 
 type Solver struct {
 	cmd      *exec.Cmd
@@ -34,10 +37,33 @@ type Solver struct {
 	declared map[string]bool
 	cache    map[int]string // assertion term id → verdict (feasibility cache)
 	log      io.Writer
+	vars     []*Term
+	models   []*cachedModel
+	ModelHits int
+}
+
+type cachedModel struct {
+	m    map[string]*big.Int
+	memo map[int]*big.Int
+}
+
+// modelSat reports whether some cached model satisfies a (counterexample cache).
+func (s *Solver) modelSat(a *Term) bool {
+	for i := len(s.models) - 1; i >= 0; i-- {
+		cm := s.models[i]
+		if v := Eval(a, cm.m, cm.memo); v != nil && v.Sign() != 0 {
+			return true
+		}
+	}
+	return false
 }
 
 func NewSolver() (*Solver, error) {
-	cmd := exec.Command("z3", "-in", "-smt2")
+	z3bin := "z3-new"
+	if v := os.Getenv("VS_Z3"); v != "" {
+		z3bin = v
+	}
+	cmd := exec.Command(z3bin, "-in", "-smt2")
 	in, err := cmd.StdinPipe()
 	if err != nil {
 		return nil, err
@@ -64,7 +90,7 @@ func (s *Solver) Close() {
 	s.cmd = nil
 }
 
-func emitDefs(w io.Writer, order []*Term, emitted map[int]bool, declared map[string]bool) {
+func emitDefs(w io.Writer, order []*Term, emitted map[int]bool, declared map[string]bool, newVars *[]*Term) {
 	for _, t := range order {
 		if emitted[t.ID] {
 			continue
@@ -76,6 +102,9 @@ func emitDefs(w io.Writer, order []*Term, emitted map[int]bool, declared map[str
 			if !declared["v:"+t.Name] {
 				declared["v:"+t.Name] = true
 				fmt.Fprintf(w, "(declare-const %s %s)\n", smtName(t.Name), sortStr(t.W))
+				if newVars != nil {
+					*newVars = append(*newVars, t)
+				}
 			}
 		case OpUF:
 			if !declared["u:"+t.Name] {
@@ -87,9 +116,11 @@ func emitDefs(w io.Writer, order []*Term, emitted map[int]bool, declared map[str
 				}
 				fmt.Fprintf(w, "(declare-fun %s (%s) %s)\n", smtName("uf_"+t.Name), sb.String(), sortStr(d.Ret))
 			}
-			fmt.Fprintf(w, "(define-fun t%d () %s %s)\n", t.ID, sortStr(t.W), t.body())
+			fmt.Fprintf(w, "(declare-const t%d %s)\n(assert (= t%d %s))\n", t.ID, sortStr(t.W), t.ID, t.body())
 		default:
-			fmt.Fprintf(w, "(define-fun t%d () %s %s)\n", t.ID, sortStr(t.W), t.body())
+			// equational definitions (fresh constant + defining equation) instead of define-fun macros:
+			// z3 4.8.12 expands 0-ary macros into trees, which is exponential on shared DAGs
+			fmt.Fprintf(w, "(declare-const t%d %s)\n(assert (= t%d %s))\n", t.ID, sortStr(t.W), t.ID, t.body())
 		}
 	}
 }
@@ -107,10 +138,46 @@ func (s *Solver) CheckSat(timeoutMs int, as ...*Term) string {
 	if r, ok := s.cache[a.ID]; ok {
 		return r
 	}
+	if s.modelSat(a) {
+		s.ModelHits++
+		atomic.AddInt64(&GStats.ModelHits, 1)
+		s.cache[a.ID] = "sat"
+		return "sat"
+	}
+	if oneShotMode {
+		keep := ""
+		if os.Getenv("VS_SLOW") != "" {
+			keep = fmt.Sprintf("/tmp/dump/q-%d.smt2", a.ID)
+		}
+		qr := RunOneShot("z3", (timeoutMs+999)/1000, a, nil, keep)
+		if keep != "" && qr.Seconds < 1 {
+			os.Remove(keep)
+		}
+		res := qr.Verdict
+		if res == "error" {
+			fmt.Fprintln(os.Stderr, "solver error:", firstLine(qr.Raw))
+			res = "unknown"
+		}
+		atomic.AddInt64(&GStats.Queries, 1)
+		atomic.AddInt64(&GStats.TimeNanos, int64(qr.Seconds*1e9))
+		switch res {
+		case "sat":
+			atomic.AddInt64(&GStats.Sat, 1)
+		case "unsat":
+			atomic.AddInt64(&GStats.Unsat, 1)
+		default:
+			atomic.AddInt64(&GStats.Unknown, 1)
+		}
+		if d := qr.Seconds; d > 1 && os.Getenv("VS_SLOW") != "" {
+			fmt.Fprintf(os.Stderr, "slow one-shot query %.1fs verdict=%s root=t%d\n", d, res, a.ID)
+		}
+		s.cache[a.ID] = res
+		return res
+	}
 	t0 := time.Now()
 	var buf bytes.Buffer
-	emitDefs(&buf, CollectDAG([]*Term{a}), s.emitted, s.declared)
-	fmt.Fprintf(&buf, "(set-option :timeout %d)\n(push)\n(assert %s)\n(check-sat)\n(pop)\n(echo \"<<done>>\")\n", timeoutMs, ref(a))
+	emitDefs(&buf, CollectDAG([]*Term{a}), s.emitted, s.declared, &s.vars)
+	fmt.Fprintf(&buf, "(set-option :timeout %d)\n(push)\n(assert %s)\n(check-sat)\n(echo \"<<model>>\")\n%s(pop)\n(echo \"<<done>>\")\n", timeoutMs, ref(a), s.getValueCmd())
 	if s.log != nil {
 		s.log.Write(buf.Bytes())
 	}
@@ -118,6 +185,8 @@ func (s *Solver) CheckSat(timeoutMs int, as ...*Term) string {
 		return "unknown"
 	}
 	res := "unknown"
+	inModel := false
+	var modelText strings.Builder
 	for {
 		line, err := s.out.ReadString('\n')
 		if err != nil {
@@ -127,6 +196,14 @@ func (s *Solver) CheckSat(timeoutMs int, as ...*Term) string {
 		line = strings.TrimSpace(line)
 		if line == "<<done>>" {
 			break
+		}
+		if line == "<<model>>" {
+			inModel = true
+			continue
+		}
+		if inModel {
+			modelText.WriteString(line + "\n")
+			continue
 		}
 		switch {
 		case line == "sat" || line == "unsat" || line == "unknown":
@@ -141,8 +218,22 @@ func (s *Solver) CheckSat(timeoutMs int, as ...*Term) string {
 	if res == "error" {
 		res = "unknown"
 	}
+	if res == "sat" && !strings.Contains(modelText.String(), "(error") {
+		cm := &cachedModel{m: map[string]*big.Int{}, memo: map[int]*big.Int{}}
+		parseValues(modelText.String(), cm.m)
+		if len(cm.m) > 0 || len(s.vars) == 0 {
+			s.models = append(s.models, cm)
+			if len(s.models) > 6 {
+				s.models = s.models[1:]
+			}
+		}
+	}
 	atomic.AddInt64(&GStats.Queries, 1)
 	atomic.AddInt64(&GStats.TimeNanos, int64(time.Since(t0)))
+	if d := time.Since(t0); d > time.Second && os.Getenv("VS_SLOW") != "" {
+		fmt.Fprintf(os.Stderr, "slow query %.1fs verdict=%s defs=%d bytes root=t%d\n", d.Seconds(), res, buf.Len(), a.ID)
+		os.WriteFile(fmt.Sprintf("/tmp/dump/slow-%d.smt2", a.ID), buf.Bytes(), 0o644)
+	}
 	switch res {
 	case "sat":
 		atomic.AddInt64(&GStats.Sat, 1)
@@ -169,7 +260,7 @@ func WriteQuery(path string, logic string, assertion *Term, values []*Term) erro
 	}
 	fmt.Fprintf(w, "(set-option :produce-models true)\n")
 	roots := append([]*Term{assertion}, values...)
-	emitDefs(w, CollectDAG(roots), map[int]bool{}, map[string]bool{})
+	emitDefs(w, CollectDAG(roots), map[int]bool{}, map[string]bool{}, nil)
 	fmt.Fprintf(w, "(assert %s)\n(check-sat)\n", ref(assertion))
 	return nil
 }
@@ -200,7 +291,7 @@ func RunOneShot(solver string, timeoutS int, assertion *Term, values []*Term, ke
 	}
 	fmt.Fprintf(&buf, "(set-option :produce-models true)\n")
 	roots := append([]*Term{assertion}, values...)
-	emitDefs(&buf, CollectDAG(roots), map[int]bool{}, map[string]bool{})
+	emitDefs(&buf, CollectDAG(roots), map[int]bool{}, map[string]bool{}, nil)
 	fmt.Fprintf(&buf, "(assert %s)\n(check-sat)\n", ref(assertion))
 	// values requested in a second step only when sat: emit get-value eagerly (ignored/erroring on unsat is filtered)
 	names := []string{}
@@ -225,6 +316,8 @@ func RunOneShot(solver string, timeoutS int, assertion *Term, values []*Term, ke
 	var cmd *exec.Cmd
 	switch solver {
 	case "z3":
+		cmd = exec.Command("z3-new", "-in", "-smt2", fmt.Sprintf("-T:%d", timeoutS))
+	case "z3-old":
 		cmd = exec.Command("z3", "-in", "-smt2", fmt.Sprintf("-T:%d", timeoutS))
 	case "z3-new":
 		cmd = exec.Command("z3-new", "-in", "-smt2", fmt.Sprintf("-T:%d", timeoutS))
@@ -344,4 +437,17 @@ func parseValues(s string, m map[string]*big.Int) {
 			i++
 		}
 	}
+}
+
+func (s *Solver) getValueCmd() string {
+	if len(s.vars) == 0 {
+		return ""
+	}
+	var sb strings.Builder
+	sb.WriteString("(get-value (")
+	for _, v := range s.vars {
+		sb.WriteString(smtName(v.Name) + " ")
+	}
+	sb.WriteString("))\n")
+	return sb.String()
 }
